@@ -78,8 +78,24 @@ TABLE_OPENS = ("LccModel.SuiteObj",)
 
 
 def tables(ctx):
-    return _inject_table.tables(ctx)
+    return _inject_table.tables(ctx) + _hooks_table.tables(ctx)
+
+
+# ---- the hooks in every shape (method / staticmethod / classmethod / lambda / function assigned in __init__ / partial / callable object
+#      / imported function) and place (class body / base class / mixin / __init__ / suite module) ----------------------------------------
+from props import _hooks, _hooks_table
+
+
+class Hooks(_hooks.HooksStream):
+    name = "C03.hooks"
+
+
+LEAN_MODULES = LEAN_MODULES + ["LccModel.Props.C03Hooks"]
+PROPS_FILES = PROPS_FILES + ["LccModel/Props/C03Hooks.lean"]
+NAMESPACES = dict(NAMESPACES, **{"LccModel/Props/C03Hooks.lean": "LccModel.C03Hooks"})
+TRUSTED_BASE = TRUSTED_BASE + _hooks.HOOKS_TRUSTED
+RULE = RULE + "; " + _hooks.HOOKS_RULE
 
 
 def streams(ctx):
-    return [Run(), RunPT(), DeclRun()]
+    return [Hooks(), Run(), RunPT(), DeclRun()]
